@@ -64,6 +64,7 @@ func main() {
 	unit := flag.String("unit", "lib", "lib | api | wasm")
 	funcs := flag.String("funcs", ".*", "regexp selecting functions (qualified name pkg.Func)")
 	kinds := flag.String("kinds", ".*", "regexp selecting obligation kinds/names")
+	skip := flag.String("skip", "^$", "regexp of functions to leave out")
 	out := flag.String("out", "", "result JSON file")
 	work := flag.String("work", "", "directory for SMT files")
 	timeout := flag.Int("timeout", 10, "per-solver timeout in seconds")
@@ -82,6 +83,7 @@ func main() {
 	}
 	loadS := time.Since(t0).Seconds()
 	fre := regexp.MustCompile(*funcs)
+	skre := regexp.MustCompile(*skip)
 	kre := regexp.MustCompile(*kinds)
 
 	if *work == "" {
@@ -103,7 +105,7 @@ func main() {
 		if u.unitPkg(fn) == nil {
 			continue
 		}
-		if fre.MatchString(u.contractKey(fn)) {
+		if fre.MatchString(u.contractKey(fn)) && !skre.MatchString(u.contractKey(fn)) {
 			fns = append(fns, fn)
 		}
 	}
@@ -149,6 +151,25 @@ func main() {
 		}
 		fo.Obligations = n
 		res.Funcs = append(res.Funcs, fo)
+	}
+	// file-level lemmas: closed formulas over the spec library, proved once
+	if u.Name == "lib" {
+		for _, lm := range u.Contracts.Lemmas {
+			name := "otp.lemma$" + lm.Name
+			if !fre.MatchString(name) {
+				continue
+			}
+			fx := &FX{u: u, name: name, usedModels: map[string]bool{}, mapOrigin: map[string]*cmap{}, pureDecl: map[string]bool{}, fc: &FuncContract{Reveal: lm.Reveal}}
+			fx.initMaps()
+			fx.entry = &State{PC: tTrue, H: T{"H!none", SHeap}, Hs: T{"Hs!none", SSHeap}, Alloc: T{"alloc!none", SSet}, Priv: map[*ssa.Alloc][2]T{}}
+			env := &Env{fx: fx, st: fx.entry, old: fx.entry, bound: map[string]Val{}, calleeMode: true, calleeParams: map[string]Val{}}
+			goal := fx.evalBool(env, lm.C.E)
+			o := &Obligation{Name: fmt.Sprintf("%s.%s/lemma:%s", u.Name, name, lm.Name), Kind: "lemma", Func: name, Unit: u.Name, Prefix: len(fx.lines), Guard: tTrue, Goal: goal, Extra: tTrue, Src: lm.C.Src, Pos: lm.C.Pos, fx: fx}
+			if kre.MatchString(o.Name) {
+				allObls = append(allObls, o)
+			}
+			res.Funcs = append(res.Funcs, FuncOut{Name: name, Unit: u.Name, HasContract: true, Obligations: 1})
+		}
 	}
 	// contracts naming functions that do not exist
 	for name, fc := range u.Contracts.Funcs {
